@@ -155,7 +155,7 @@ class Message:
         d = json.loads(s)
 
         # Decode header segment
-        hdr_cls = get_header_cls()
+        hdr_cls = get_header_cls(timecode="utc_seconds" in d["header"])
         hdr = hdr_cls.from_dict(d["header"])
 
         # Decode message data segment
